@@ -118,20 +118,6 @@ Proof.
   - apply Forall_map. apply Forall_forall. reflexivity.
 Qed.
 
-(* F13b at the level of Client.list(): one set-uid/set-gid/sticky entry without the execute bit
-   makes the whole LIST listing raise, when the other parsers of the chain reject the line too *)
-Theorem client_list_ST_fails half two nowdt others pre post st ds name :
-  Forall (fun x => exists r, parse_list_line (parse_list_line_unix half two nowdt) others x = Ok r /\ true = true) pre ->
-  no_ST (st_mode st) = false -> name <> [] -> rstrip name = name ->
-  Forall (fun p => exists t, p (build_list_string_with st ds name) = Err t) others ->
-  client_collect (parse_list_line (parse_list_line_unix half two nowdt) others) (fun _ => true)
-                 (pre ++ build_list_string_with st ds name :: post) = Err E_VALUE.
-Proof.
-  intros F HST Nn Nr Fo. apply client_collect_err; [exact F|].
-  apply parse_list_line_all_fail; [|exact Fo].
-  exists E_VALUE. apply list_line_ST_rejected; assumption.
-Qed.
-
 Lemma mlsx_entry_has_type st kind : entry_has_type (entry_of (mlsx_facts st kind)) = true.
 Proof. destruct st as [s|]; reflexivity. Qed.
 
